@@ -5,7 +5,7 @@ KindsMulti == {"PG", "MPT", "MLS", "MPG", "GC"}
 KindsClone == {"PT", "LS", "LR", "PG", "MPT", "MLS", "MPG"}
 LayoutsSmall == {"XY", "XYZM", "L5", "No"}
 LayoutsAll == {"No", "XY", "XYZ", "XYM", "XYZM", "L5", "L6"}
-OpsC01 == {"setcoords", "newflat", "push", "push2", "clone", "reverse", "swap", "setlayout"}
+OpsC01 == {"setcoords", "newflat", "setself", "setpart", "push", "push2", "clone", "reverse", "swap", "setlayout"}
 OpsC02 == {"push", "push2", "pushbad", "reverse", "swap", "clone", "setlayout"}
 OpsC16 == {"clone", "push", "reverse", "swap", "write", "wend", "transform", "srid", "reserve", "setcoords", "newflat"}
 TailNone == {}
